@@ -419,3 +419,156 @@ func verifC13Chain() {
 	vAssert(d.Answer[1].Name == string(want), "all labels of the chained name are returned in order")
 	vReach("chain")
 }
+
+// ---- reference encoder for whole messages (RFC 1035 4.1, RFC 6891 6.1.2, RFC 9460 2.2), no compression
+
+func vU16b(v uint16) []byte { return []byte{byte(v >> 8), byte(v)} }
+
+func vRefRData(rr RR) []byte {
+	switch d := rr.Data.(type) {
+	case net.IP:
+		return append([]byte{}, d...)
+	case string:
+		return vRefName(d, -1)
+	case []Option:
+		var out []byte
+		for _, o := range d {
+			out = vCat(out, vU16b(o.Code), vU16b(uint16(len(o.Data))), o.Data)
+		}
+		return out
+	case HTTPS:
+		out := vCat(vU16b(d.Priority), vRefName(d.Target, -1))
+		if len(d.ALPN) > 0 {
+			var l []byte
+			for _, a := range d.ALPN {
+				l = vCat(l, []byte{byte(len(a))}, []byte(a))
+			}
+			out = vCat(out, vU16b(1), vU16b(uint16(len(l))), l)
+		}
+		if d.NoDefaultALPN {
+			out = vCat(out, vU16b(2), vU16b(0))
+		}
+		if d.Port > 0 {
+			out = vCat(out, vU16b(3), vU16b(2), vU16b(d.Port))
+		}
+		if len(d.IPv4Hint) > 0 {
+			var l []byte
+			for _, ip := range d.IPv4Hint {
+				l = vCat(l, ip)
+			}
+			out = vCat(out, vU16b(4), vU16b(uint16(len(l))), l)
+		}
+		if len(d.ECH) > 0 {
+			out = vCat(out, vU16b(5), vU16b(uint16(len(d.ECH))), d.ECH)
+		}
+		if len(d.IPv6Hint) > 0 {
+			var l []byte
+			for _, ip := range d.IPv6Hint {
+				l = vCat(l, ip)
+			}
+			out = vCat(out, vU16b(6), vU16b(uint16(len(l))), l)
+		}
+		return out
+	}
+	return nil
+}
+
+func vRefRR(rr RR) []byte {
+	rd := vRefRData(rr)
+	return vCat(vRefName(rr.Name, -1), vU16b(rr.Type), vU16b(rr.Class),
+		[]byte{byte(rr.TTL >> 24), byte(rr.TTL >> 16), byte(rr.TTL >> 8), byte(rr.TTL)}, vU16b(uint16(len(rd))), rd)
+}
+
+func vRefMessage(m Message) []byte {
+	flags := uint16(m.QR&1)<<15 | uint16(m.OpCode&0xf)<<11 | uint16(m.AA&1)<<10 | uint16(m.TC&1)<<9 | uint16(m.RD&1)<<8 | uint16(m.RA&1)<<7 | uint16(m.RCode&0xf)
+	out := vCat(vU16b(m.ID), vU16b(flags), vU16b(uint16(len(m.Question))), vU16b(uint16(len(m.Answer))), vU16b(uint16(len(m.Authority))), vU16b(uint16(len(m.Additional))))
+	for _, q := range m.Question {
+		out = vCat(out, vRefName(q.Name, -1), vU16b(q.Type), vU16b(q.Class))
+	}
+	for _, sec := range [][]RR{m.Answer, m.Authority, m.Additional} {
+		for _, rr := range sec {
+			out = vCat(out, vRefRR(rr))
+		}
+	}
+	return out
+}
+
+// vNameShape: names as callers write them: the root (""), one or two labels, a
+// fully-qualified form with a trailing dot, a maximal 63-byte label.
+func vNameShape() string {
+	switch vInt(0, 4) {
+	case 0:
+		return ""
+	case 1:
+		return vName(2)
+	case 2:
+		n := vName(1)
+		vAssume(len(n) > 0)
+		return n + "."
+	case 3:
+		l := make([]byte, 63)
+		for i := range l {
+			l[i] = 'x'
+		}
+		return string(l) + ".b"
+	}
+	return "a.bc"
+}
+
+// verifC13Exact: Message.Bytes() is byte for byte what the reference encoder
+// produces for the same message (header bit positions, counts, names in every
+// caller-side shape, every supported RDATA layout, no stray bytes), so an
+// independent RFC 1035 decoder reads exactly this package's message.
+func verifC13Exact() {
+	m := Message{ID: vUint16(), QR: vByte() & 1, OpCode: vByte() & 0xf, AA: vByte() & 1, TC: vByte() & 1, RD: vByte() & 1, RA: vByte() & 1, RCode: vByte() & 0xf}
+	withQ := vBool()
+	if withQ {
+		m.Question = []Question{{Name: vNameShape(), Type: vUint16(), Class: vUint16()}}
+	}
+	if !withQ || vTier() > 0 {
+		rr := RR{Name: vNameShape(), Class: vUint16(), TTL: vUint32()}
+		switch vInt(0, 4) {
+		case 0:
+			rr.Type, rr.Data = 1, net.IP(vBytes(4))
+		case 1:
+			rr.Type, rr.Data = 28, net.IP(vBytes(16))
+		case 2:
+			rr.Type = []uint16{2, 5, 12}[vInt(0, 2)]
+			rr.Data = vNameShape()
+		case 3:
+			rr.Type = 41
+			opts := []Option{}
+			for i, n := 0, vInt(0, 2); i < n; i++ {
+				opts = append(opts, Option{Code: vUint16(), Data: vBytes(i)})
+			}
+			rr.Data = opts
+		case 4:
+			rr.Type = 65
+			h := HTTPS{Priority: vUint16(), Target: vNameShape(), NoDefaultALPN: vBool(), Port: vUint16()}
+			if vBool() {
+				h.ALPN = []string{string(vBytes(2)), string(vBytes(1))}
+			}
+			if vBool() {
+				h.IPv4Hint = vIPs(2, 4)
+				h.IPv6Hint = vIPs(1+vTier(), 16)
+			}
+			if vBool() {
+				h.ECH = vBytes(3)
+			}
+			rr.Data = h
+		}
+		switch vInt(0, 2) {
+		case 0:
+			m.Answer = []RR{rr}
+		case 1:
+			m.Authority = []RR{rr}
+		default:
+			m.Additional = []RR{rr}
+		}
+	}
+	got := m.Bytes()
+	want := vRefMessage(m)
+	vAssert(len(got) == len(want), "encoded length equals the reference encoding's (no missing or stray bytes)")
+	vAssert(vEqBytes(got, want), "encoded message equals the reference encoding byte for byte")
+	vReach("exact")
+}
